@@ -1,3 +1,4 @@
+import AmrK.TasteDataProofs
 import AmrK.Names
 import AmrK.HeaderRewriteProofs
 import AmrK.WritersSizes
@@ -58,5 +59,21 @@ theorem output_header_read_back (fl : Py.Bytes → Py.Bytes) (m : Header.Meta) (
     Header.parse (Header.render (Header.rewriteOf fl true m coord names)) none =
       .ok ((Header.rewriteOf fl true m coord names).meta (Header.rewriteOf fl true m coord names).levels.length) :=
   Header.rewrite_read_back fl true m coord names hg
+
+/-- **true extrema** (the rows the driver recomputes from the bytes of every written FAB with `TasteData.fabExtrema` and
+    compares with the written level header): the `np.min` / `np.max` of a NaN-free block of values is an element of the
+    block below / above every element; a block holding a NaN has NaN for both -/
+theorem extrema_are_true (l : List Extrema.V) (hne : l ≠ []) (hl : TasteData.NoNan l) :
+    (∃ m, Extrema.reduce Extrema.vmin l = some m ∧ m ∈ l ∧ ∀ x ∈ l, Extrema.le m x = true) ∧
+    (∃ m, Extrema.reduce Extrema.vmax l = some m ∧ m ∈ l ∧ ∀ x ∈ l, Extrema.le x m = true) :=
+  ⟨TasteData.reduce_vmin_spec l hne hl, TasteData.reduce_vmax_spec l hne hl⟩
+
+theorem extrema_nan (l : List Extrema.V) (h : Extrema.V.nan ∈ l) :
+    Extrema.reduce Extrema.vmin l = some .nan ∧ Extrema.reduce Extrema.vmax l = some .nan :=
+  ⟨Extrema.reduce_nan _ (by intro x; cases x <;> rfl) (by intro x; cases x <;> rfl) l h,
+   Extrema.reduce_nan _ (by intro x; cases x <;> rfl) (by intro x; cases x <;> rfl) l h⟩
+
+example : TasteData.fabExtrema ([0,0,0,0,0,0,0xF0,0x3F] ++ [0,0,0,0,0,0,0x08,0xC0]) 2 0 = some (.fin (-3), .fin 1) := by
+  decide +kernel
 
 end C11
